@@ -45,6 +45,9 @@ pub enum Op {
 #[derive(Debug, Clone, Serialize, Deserialize)]
 pub struct Case {
     pub ops: Vec<Op>,
+    /// the second service is registered like ping / identify: its substreams do not keep connections alive
+    #[serde(default)]
+    pub second_without_keep_alive: bool,
 }
 
 fn strategy(max_ops: usize) -> impl Strategy<Value = Case> {
@@ -59,7 +62,7 @@ fn strategy(max_ops: usize) -> impl Strategy<Value = Case> {
         2 => Just(Op::CloseIdle),
         1 => Just(Op::ShutdownSecond),
     ];
-    prop::collection::vec(op, 1..max_ops).prop_map(|ops| Case { ops })
+    prop::collection::vec(op, 1..max_ops).prop_map(|ops| Case { ops, second_without_keep_alive: false })
 }
 
 struct ServiceView {
@@ -184,7 +187,7 @@ async fn run_async(c: &Case, real_time: bool) -> Result<(bool, bool, bool, bool)
         keypair_from_seed(0xC08),
         None,
         None,
-        vec![(ProtocolName::from("/c08/1"), true), (ProtocolName::from("/c08/2"), true)],
+        vec![(ProtocolName::from("/c08/1"), true), (ProtocolName::from("/c08/2"), !c.second_without_keep_alive)],
         if real_time { Duration::from_millis(40) } else { KEEP_ALIVE },
     );
     // one in-memory yamux pair mints real substreams for "open succeeded" answers
@@ -272,7 +275,40 @@ async fn run_async(c: &Case, real_time: bool) -> Result<(bool, bool, bool, bool)
                         ensure!(w.all_ids.insert(id), "C08/substream-id-reused", "step {}: id {id}", w.step);
                         w.views[si].issued.insert(id, p);
                     }
-                    Err(_) => {}
+                    Err(e) => {
+                        // "while a peer is connected a request to open a substream is accepted": the service was told of a
+                        // connection and not of its end, and the harness (which plays the connection tasks and empties their
+                        // command queues after every request) still runs a connection to that peer
+                        // ... and that connection is not on its way out: a connection all of whose protocol handles have been
+                        // released (keep-alive expiry) or that was told to close is ending, and refusing is right
+                        // (with two connections the request goes to the primary one, which may be the one that is ending while the
+                        // other lives on: judged only when none of the peer's connections is ending)
+                        let mut live = true;
+                        let mut any = false;
+                        for id in w.live.iter().filter(|(_, q)| **q == p).map(|(id, _)| *id).collect::<Vec<_>>() {
+                            let mut ending = false;
+                            while let Some(cmd) = w.m.poll_connection(id) {
+                                match cmd {
+                                    ConnCommand::AllHandlesDropped | ConnCommand::ForceClose => {
+                                        ending = true;
+                                        break;
+                                    }
+                                    ConnCommand::OpenSubstream { substream_id, .. } => w.requests.push((id, substream_id)),
+                                }
+                            }
+                            live &= !ending;
+                            any = true;
+                        }
+                        let live = live && any;
+                        ensure!(
+                            !(considered_connected && live),
+                            "C08/open-substream-refused-for-a-connected-peer",
+                            "step {}: service {si} (keeps connections alive: {}) asked for a substream to {p}, which it was told is connected and to which connection(s) {:?} are open: {e:?}",
+                            w.step,
+                            si == 0 || !c.second_without_keep_alive,
+                            w.live.iter().filter(|(_, q)| **q == p).map(|(id, _)| *id).collect::<Vec<_>>()
+                        );
+                    }
                 }
                 // let the connections read their command queues
                 for id in w.live.keys().cloned().collect::<Vec<_>>() {
@@ -418,7 +454,7 @@ fn rt_strategy(max_ops: usize) -> impl Strategy<Value = Case> {
         5 => prop_oneof![Just(2600u16), Just(5100), Just(6000), Just(11000)].prop_map(|ms| Op::Advance { ms }),
         3 => Just(Op::CloseIdle),
     ];
-    prop::collection::vec(op, 3..max_ops).prop_map(|ops| Case { ops })
+    prop::collection::vec(op, 3..max_ops).prop_map(|ops| Case { ops, second_without_keep_alive: false })
 }
 
 fn run_case(c: &Case) -> CaseResult {
@@ -447,6 +483,17 @@ pub fn run(ctx: &mut Ctx) {
     ctx.campaign("histories", CampaignCfg::new(t.pick(20_000, 400_000)).shards(16), || strategy(40), run_case);
     ctx.campaign("long", CampaignCfg::new(t.pick(3_000, 60_000)).shards(16), || strategy(150), run_case);
     ctx.campaign("keep-alive-real-time", CampaignCfg::new(t.pick(1_600, 40_000)).shards(16).shrink_iters(200), || rt_strategy(16), run_case_rt);
+    ctx.campaign(
+        "keep-alive-real-time-mixed",
+        CampaignCfg::new(t.pick(1_600, 40_000)).shards(16).shrink_iters(200),
+        || {
+            rt_strategy(16).prop_map(|mut c| {
+                c.second_without_keep_alive = true;
+                c
+            })
+        },
+        run_case_rt,
+    );
     ctx.campaign("slow-protocol", CampaignCfg::new(t.pick(160, 3_000)).shards(16), super::c08_slow::strategy, super::c08_slow::run_case);
     // the remote ends the connection by breaking the rules of the multiplexer (see c07_rogue): the substream events of its
     // streams lie inside the connection, and established / closed are reported once
